@@ -15,13 +15,22 @@
 (*         BFS; pkg/engine/graph.go resolveGraphFilter/VExtractSubgraph:   *)
 (*         FIFO BFS with a depth label) checked by TLC against Part 1 over *)
 (*         every graph of the bound and every query.                       *)
+(*                                                                         *)
+(* Required of the implementation (judged by harness/cmd/vpaths on the     *)
+(* real engine with the answers printed through the CORPUS channel):       *)
+(*   FindPath(s,t,rels,depth,T) = p     =>  PathOK(p, Hop(V,rels,T), s, t) *)
+(*   FindPath(s,t,rels,depth,T) = none  =>  ~MustFind(Hop(V,rels,T),s,t,depth) *)
+(*   nodes of VExtractSubgraph(root,rels,depth,T) = Reach(V,root,rels,"both",depth,T) *)
+(*   ids of VSearch(.., GraphQuery(root,rels,dir,depth)) = Reach(V,root,rels,dir,depth,0) *)
+(*   tree of VTraverse(root, rho) = Walks(V,root,rho) (exact up to WalkCap hops) *)
+(*   every call returns (cyclic and self-referential graphs included).     *)
 (***************************************************************************)
 EXTENDS Integers, Sequences, FiniteSets, TLC, Json
 
 CONSTANTS
     N,          \* nodes are 1..N
     NR,         \* relations are 1..NR
-    MaxEdges,   \* bound: edge versions of a graph
+    MaxEdges,   \* bound: edge versions of a graph (at most 3 versions per (s,t,r): dead, dead, live)
     MaxDead,    \* bound: soft-deleted versions among them
     Seeds,      \* set of graphs (sets of codes) TLC starts from
     Grow,       \* TRUE: enumerate every canonical graph of the bound above the seeds
@@ -108,29 +117,43 @@ WalkCap == 10        \* traversePath: recursion cap; exactness is required up to
 (***************************************************************************)
 (* Part 2.  The enumerated family.                                         *)
 (*                                                                         *)
-(* A graph is a set of codes; code = 2 * triple + status, the triple       *)
-(* (s,t,r) in lexicographic order, status 0 = live version, 1 = version    *)
-(* that was soft-deleted.  Both codes of a triple = the edge was deleted   *)
-(* and linked again (two versions).  Times are those of the canonical      *)
-(* history: phase A links every version except re-links (code order),      *)
-(* phase B unlinks the dead ones (code order), phase C re-links.  Event i  *)
-(* happens at time i+1; time 1 is "before everything"; 0 is "now".         *)
+(* A graph is a set of codes; code = 3 * triple + status, the triple       *)
+(* (s,t,r) in lexicographic order.  Status 0 = the live version of the     *)
+(* edge, 1 = a version that was soft-deleted, 2 = a second soft-deleted    *)
+(* version (only together with 1).  Several codes of one triple = the edge *)
+(* was deleted and linked again: up to three versions dead, dead, live.    *)
+(* Times are those of the canonical history, five phases, code order       *)
+(* inside a phase:  link the first version of every edge; unlink the       *)
+(* status-1 versions; link the second versions; unlink the status-2        *)
+(* versions; link the third versions.  Event i happens at time i+1;        *)
+(* time 1 is "before everything"; 0 is "now".                              *)
 (***************************************************************************)
-Codes == 0..(2 * N * N * NR - 1)
-Src(x) == (x \div (2 * NR * N)) + 1
-Dst(x) == ((x \div (2 * NR)) % N) + 1
-Rel(x) == ((x \div 2) % NR) + 1
-IsDead(x) == x % 2 = 1
-Enc(s, t, r, dead) == 2 * (((s - 1) * N + (t - 1)) * NR + (r - 1)) + (IF dead THEN 1 ELSE 0)
+Codes == 0..(3 * N * N * NR - 1)
+Tri(x) == x \div 3
+St(x)  == x % 3
+Src(x) == (Tri(x) \div (NR * N)) + 1
+Dst(x) == ((Tri(x) \div NR) % N) + 1
+Rel(x) == (Tri(x) % NR) + 1
+IsDead(x) == St(x) # 0
+Enc(s, t, r, st) == 3 * (((s - 1) * N + (t - 1)) * NR + (r - 1)) + st
 
-DeadOf(g)   == {x \in g : IsDead(x)}
-RelinkOf(g) == {x \in g : ~IsDead(x) /\ (x + 1) \in g}
-PhaseA(g)   == g \ RelinkOf(g)
-Rank(x, S)  == Cardinality({y \in S : y <= x})
-CTime(x, g) == IF x \in RelinkOf(g)
-               THEN 1 + Cardinality(PhaseA(g)) + Cardinality(DeadOf(g)) + Rank(x, RelinkOf(g))
-               ELSE 1 + Rank(x, PhaseA(g))
-DTime(x, g) == IF IsDead(x) THEN 1 + Cardinality(PhaseA(g)) + Rank(x, DeadOf(g)) ELSE 0
+DeadOf(g) == {x \in g : IsDead(x)}
+\* position of version x among the versions of its edge, in time
+Ord(x, g) == IF St(x) # 0 THEN St(x)
+             ELSE 1 + Cardinality({y \in g : Tri(y) = Tri(x) /\ IsDead(y)})
+LinkPhase(g, k)   == {x \in g : Ord(x, g) = k}          \* k = 1, 2, 3
+UnlinkPhase(g, k) == {x \in g : St(x) = k}             \* k = 1, 2
+Rank(x, S) == Cardinality({y \in S : y <= x})
+Card(S) == Cardinality(S)
+CTime(x, g) ==
+    CASE Ord(x, g) = 1 -> 1 + Rank(x, LinkPhase(g, 1))
+      [] Ord(x, g) = 2 -> 1 + Card(LinkPhase(g, 1)) + Card(UnlinkPhase(g, 1)) + Rank(x, LinkPhase(g, 2))
+      [] Ord(x, g) = 3 -> 1 + Card(LinkPhase(g, 1)) + Card(UnlinkPhase(g, 1)) + Card(LinkPhase(g, 2))
+                            + Card(UnlinkPhase(g, 2)) + Rank(x, LinkPhase(g, 3))
+DTime(x, g) ==
+    CASE St(x) = 0 -> 0
+      [] St(x) = 1 -> 1 + Card(LinkPhase(g, 1)) + Rank(x, UnlinkPhase(g, 1))
+      [] St(x) = 2 -> 1 + Card(LinkPhase(g, 1)) + Card(UnlinkPhase(g, 1)) + Card(LinkPhase(g, 2)) + Rank(x, UnlinkPhase(g, 2))
 LastTime(g) == 1 + Cardinality(g) + Cardinality(DeadOf(g))
 Versions(g) == {[s |-> Src(x), t |-> Dst(x), r |-> Rel(x), c |-> CTime(x, g), d |-> DTime(x, g)] : x \in g}
 QTimes(g)   == 0..LastTime(g)      \* query times: now, before everything, at every event boundary
@@ -138,6 +161,7 @@ QTimes(g)   == 0..LastTime(g)      \* query times: now, before everything, at ev
 InBound(g) == /\ g \subseteq Codes
               /\ Cardinality(g) <= MaxEdges
               /\ Cardinality(DeadOf(g)) <= MaxDead
+              /\ \A x \in g : St(x) = 2 => (x - 1) \in g
 
 \* a history the engine can produce: strictly increasing distinct event times, versions of
 \* one (s,t,r) have disjoint lifetimes, at most one of them is live
@@ -154,14 +178,15 @@ WellFormed(V) ==
 Bijections(S) == {f \in [S -> S] : \A a, b \in S : f[a] = f[b] => a = b}
 \* (only needed, and only computed, when the family is generated: TLC evaluates constant definitions up front)
 CodePerms == IF ~Grow THEN {}
-             ELSE {[x \in Codes |-> Enc(pn[Src(x)], pn[Dst(x)], pr[Rel(x)], IsDead(x))] :
+             ELSE {[x \in Codes |-> Enc(pn[Src(x)], pn[Dst(x)], pr[Rel(x)], St(x))] :
                       <<pn, pr>> \in Bijections(Nodes) \X Bijections(Rels)}
 MinOf(S) == CHOOSE x \in S : \A y \in S : x <= y
 MaxOf(S) == CHOOSE x \in S : \A y \in S : x >= y
 \* g is the lexicographically least (as an ascending code sequence) graph of its class.  For
 \* sets of equal size, A precedes B iff the least element of their symmetric difference is in A.
-\* The least representative minus its greatest code is again a least representative, hence
-\* every class is reached by adding codes in ascending order through canonical graphs only.
+\* The least representative minus its greatest code is again a least representative (and InBound
+\* is preserved by removing the greatest code), hence every class is reached by adding codes in
+\* ascending order through canonical graphs only.
 Canonical(g) == \A m \in CodePerms :
                     LET h == {m[x] : x \in g}
                     IN  IF h = g THEN TRUE ELSE MinOf((g \ h) \cup (h \ g)) \in g
